@@ -561,7 +561,43 @@ func crashExec(ops []string) (dops []string, res []string) {
 						spec = append(spec, fmt.Sprintf("%d=%d", r.walIDs[c.file], len(decodeWalRecords(b[:c.keep]))))
 					}
 				}
-				reads, problem, _ := openAndRead(work, cfg, keys, nil)
+				// after the recovery of the cut image: one more acknowledged commit, then the process dies again (the directory
+				// as it is, with the store still open) — the commit made after the first recovery must survive the second
+				second := filepath.Join(root, "second")
+				os.RemoveAll(second)
+				tookSecond := false
+				// every file-system operation of this store passes a gate, so that the second crash image is taken between
+				// two operations (the flusher may be working on what the recovery left behind)
+				var gate sync.Mutex
+				vhook.Install(&vhook.Handlers{FS: func(string, string, int) { gate.Lock() }, FSDone: func(string, string, int) { gate.Unlock() }})
+				reads, problem, _ := openAndRead(work, cfg, keys, func(d *originium.DB) string {
+					if err := d.Update(func(x *originium.Txn) error { return x.Set("zz-after-loss", []byte("second")) }); err != nil {
+						return "commit after the recovery of a lossy image failed: " + err.Error()
+					}
+					gate.Lock()
+					copyDir(work, second)
+					gate.Unlock()
+					tookSecond = true
+					return ""
+				})
+				vhook.Install(nil)
+				if problem == "" && tookSecond {
+					reads2, problem2, _ := openAndRead(second, cfg, append(append([]string{}, keys...), "zz-after-loss"), nil)
+					extraOps = append(extraOps, fmt.Sprintf("expectok lossy image %d %v, then a commit, a second crash and recovery", i, cs))
+					switch {
+					case problem2 != "":
+						extraRes = append(extraRes, "SPEC-VIOLATION after unsynced tails were lost at crash point "+strconv.Itoa(i)+", a recovery, one acknowledged commit and a second crash: "+problem2)
+					case reads2["zz-after-loss"] != "second":
+						extraRes = append(extraRes, "SPEC-VIOLATION after unsynced tails were lost at crash point "+strconv.Itoa(i)+", a recovery and a second crash: the commit acknowledged after the first recovery is lost")
+					default:
+						if v := checkVisible(reads2, r.acked, img.acked, img.inflight, keys, false); v != "" {
+							extraRes = append(extraRes, "SPEC-VIOLATION after unsynced tails were lost at crash point "+strconv.Itoa(i)+", a recovery, a commit and a second crash: "+v)
+						} else {
+							extraRes = append(extraRes, "ok")
+						}
+					}
+				}
+				os.RemoveAll(second)
 				cs2 := "-"
 				if len(spec) > 0 {
 					cs2 = strings.Join(spec, ",")
